@@ -110,7 +110,24 @@ def examine_find(case, registry=None, env=None):
         # the same data built from dict/list subclasses (OrderedDict, plain dict and list subclasses)
         doc = V.exotic(doc, case["exotic"])
     expected = ev.find(ast, doc, registry)
-    status, got = lib.find(q, doc, env)
+    with lib.ambient(case.get("ambient")):
+        if case.get("interrupted"):
+            # the FIRST application of the freshly compiled query is made from deep inside a host program's stack and
+            # may die of RecursionError part-way; the query object is then applied again from a normal stack
+            status, got = lib.compile_(q, env)
+            if status == "ok":
+                cq = got
+                import sys
+                f, here = sys._getframe(), 0
+                while f is not None:
+                    here, f = here + 1, f.f_back
+                try:
+                    lib.at_depth(sys.getrecursionlimit() - here - case["interrupted"], lambda: cq.find(doc))
+                except (RecursionError, lib.JSONPathError):
+                    pass
+                status, got = lib.find(cq, doc, env)
+        else:
+            status, got = lib.find(q, doc, env)
     if status == "err":
         return {"bucket": f"raised:{got['type']}:{got['frame']}",
                 "what": f"find({q!r}) raised {got['type']}: {got['str']}",
